@@ -355,7 +355,7 @@ func genSpec(c *sim.Ctx, cfg genCfg) *ref.Spec {
 			if cfg.guards && cfg.multiCand && c.Chance(1, 4, "selective") {
 				// a pattern that matches in several ways, and a guard that accepts one of them
 				n.Branches = append(n.Branches, &ref.Branch{HasPat: true, Pattern: map[string]interface{}{"a": []interface{}{"?v"}},
-					Guard:  &ref.Action{Ops: []ref.Op{{Kind: "require", K: "?v", V: []interface{}{1.0, 2.0, 3.0, "x"}[c.Intn(4, "selval")]}, {Kind: "set", K: "n", V: "picked"}}},
+					Guard:  &ref.Action{Native: cfg.nativeOnly, Ops: []ref.Op{{Kind: "require", K: "?v", V: []interface{}{1.0, 2.0, 3.0, "x"}[c.Intn(4, "selval")]}, {Kind: "set", K: "n", V: "picked"}}},
 					Target: target()})
 			}
 			genBranches(n, msgKeys, true)
